@@ -15,19 +15,43 @@ Notation accept := (accept H expected npieces psize repaired).
 Notation run := (run H expected npieces psize repaired).
 
 Definition in_piece (x : block) : Prop := b_off x + b_len x <= psize (b_idx x).
-Definition GeoInv (s : state) : Prop := forall x, In x (blocks s) -> in_piece x.
+(* Block numbering: block b of a piece starts at b * block_size (what down_chunk_start's off / block_size relies on) *)
+Definition no_off (x : block) : Prop := b_off x = b_no x * bs.
 
 Lemma in_piece_geo : forall y x, geo y = geo x -> in_piece x -> in_piece y.
-Proof. unfold geo, in_piece. intros y x E. inversion E as [[E1 E2 E3]]. rewrite E1, E2, E3. auto. Qed.
+Proof. unfold geo, in_piece. intros y x E. inversion E as [[E1 E2 E3 E4]]. rewrite E1, E2, E3. auto. Qed.
+Lemma no_off_geo : forall y x, geo y = geo x -> no_off x -> no_off y.
+Proof. unfold geo, no_off. intros y x E. inversion E as [[E1 E2 E3 E4]]. rewrite E2, E4. auto. Qed.
 
-Lemma geo_from : forall (s s' : state),
-  GeoInv s -> (forall y, In y (blocks s') -> exists x, In x (blocks s) /\ geo y = geo x) -> GeoInv s'.
-Proof. intros s s' G Hb y Hy. destruct (Hb y Hy) as [x [Hx E]]. eapply in_piece_geo; [exact E | apply G; exact Hx]. Qed.
+Lemma in_piece_mk : forall i y, In y (mk_blocks psize i) -> in_piece y.
+Proof. intros i y Hy. destruct (blocks_inside_piece psize i y Hy) as [E B]. unfold in_piece. rewrite E. exact B. Qed.
+
+Lemma mk_blocks_from_no_off : forall fuel i no off size y, off = no * bs -> In y (mk_blocks_from i no off size fuel) -> no_off y.
+Proof.
+  induction fuel as [|k IH]; intros i no off size y E Hy; simpl in Hy; [destruct Hy|].
+  destruct (size <=? bs).
+  - destruct Hy as [<-|[]]. unfold no_off. simpl. exact E.
+  - destruct Hy as [<-|Hy]; [unfold no_off; simpl; exact E|]. eapply IH; [|exact Hy]. rewrite E. lia.
+Qed.
+Lemma no_off_mk : forall i y, In y (mk_blocks psize i) -> no_off y.
+Proof. intros i y Hy. unfold mk_blocks in Hy. eapply mk_blocks_from_no_off; [|exact Hy]. reflexivity. Qed.
 
 Ltac same_blocks := let y := fresh in let Hy := fresh in intros y Hy; exists y; split; [exact Hy | reflexivity].
 Ltac upd_blocks := let y := fresh in let Hy := fresh in intros y Hy; simpl in Hy; apply in_upd_block in Hy; [exact Hy | intro; reflexivity].
 
-Theorem geo_step : forall s e s', GeoInv s -> accept s e = Some s' -> GeoInv s'.
+(* any per-block predicate that depends only on the block's geometry (piece, number, offset, length) and holds for
+   the blocks BlockList::BlockList creates is an invariant *)
+Section PerBlock.
+Variable P : block -> Prop.
+Hypothesis P_geo : forall y x, geo y = geo x -> P x -> P y.
+Hypothesis P_mk : forall i y, In y (mk_blocks psize i) -> P y.
+Definition PInv (s : state) : Prop := forall x, In x (blocks s) -> P x.
+
+Lemma pinv_from : forall (s s' : state),
+  PInv s -> (forall y, In y (blocks s') -> exists x, In x (blocks s) /\ geo y = geo x) -> PInv s'.
+Proof. intros s s' G Hb y Hy. destruct (Hb y Hy) as [x [Hx E]]. eapply P_geo; [exact E | apply G; exact Hx]. Qed.
+
+Theorem pinv_step : forall s e s', PInv s -> accept s e = Some s' -> PInv s'.
 Proof.
   intros s e s' G A. unfold Model.accept in A. destruct (pmark s) as [m|].
   - destruct e; try discriminate. destruct (m =? i); [|discriminate]. inversion A; subst s'.
@@ -35,30 +59,50 @@ Proof.
   - destruct e; try discriminate.
     + destruct (_ || _); [discriminate|]. inversion A; subst s'. exact G.
     + destruct (memN p (conns s)); inversion A; subst s'; [|exact G].
-      eapply geo_from; [exact G|]. apply disc_spec.
+      eapply pinv_from; [exact G|]. apply disc_spec.
     + destruct (_ && _); [|discriminate]. inversion A; subst s'. intros y Hy. simpl in Hy. apply in_app_or in Hy.
-      destruct Hy as [Hy|Hy]; [apply G; exact Hy|]. destruct (blocks_inside_piece psize i y Hy) as [E B]. unfold in_piece. rewrite E. exact B.
+      destruct Hy as [Hy|Hy]; [apply G; exact Hy|]. eapply P_mk. exact Hy.
     + destruct (find_block s i b); [|discriminate]. destruct (_ && _); [|discriminate]. inversion A; subst s'.
-      eapply geo_from; [exact G|]. upd_blocks.
+      eapply pinv_from; [exact G|]. upd_blocks.
     + destruct (find_block s i b); [|discriminate]. destruct (memN p (b_queued b0)); [|discriminate]. inversion A; subst s'.
-      eapply geo_from; [exact G|]. upd_blocks.
+      eapply pinv_from; [exact G|]. upd_blocks.
     + destruct (negb (memN p (conns s))); [discriminate|]. destruct (get_cur s p); [discriminate|]. destruct start.
       * destruct (find_block s i (off / bs)); [|discriminate]. destruct (_ && _); [|discriminate]. inversion A; subst s'.
-        eapply geo_from; [exact G|]. upd_blocks.
+        eapply pinv_from; [exact G|]. upd_blocks.
       * destruct (len =? 0); inversion A; subst s'; exact G.
     + destruct (get_cur s p) as [[i b|pos len]|]; [| |discriminate].
-      * eapply geo_from; [exact G|]. apply (data_valid_spec _ _ _ _ _ _ A).
+      * eapply pinv_from; [exact G|]. apply (data_valid_spec _ _ _ _ _ _ A).
       * destruct (_ || _); [discriminate|]. destruct (pos + lenN d =? len); inversion A; subst s'; exact G.
     + destruct (memN p (conns s)); inversion A; subst s'; exact G.
     + destruct (memN p (conns s)); inversion A; subst s'; exact G.
     + destruct (_ && _); [|discriminate]. inversion A; subst s'. exact G.
     + destruct (_ && _); [|discriminate]. destruct ok; inversion A; subst s'; [exact G|].
-      eapply geo_from; [|apply hash_failed_spec]. exact G.
+      eapply pinv_from; [|apply hash_failed_spec]. exact G.
     + destruct (memN i (hashing s)); [|discriminate]. inversion A; subst s'. exact G.
     + destruct (_ && _); [|discriminate]. inversion A; subst s'. exact G.
     + destruct (_ && _); [|discriminate]. inversion A; subst s'. exact G.
     + destruct (list_eqb _ _); inversion A; subst s'. exact G.
-    + inversion A; subst s'. eapply geo_from; [exact G|]. apply corrupt_spec.
+    + inversion A; subst s'. eapply pinv_from; [exact G|]. apply corrupt_spec.
+Qed.
+
+Theorem pinv_run : forall tr s s', PInv s -> run s tr = Some s' -> PInv s'.
+Proof.
+  induction tr as [|e tr IH]; intros s s' G R; simpl in R.
+  - inversion R; subst; exact G.
+  - destruct (accept s e) as [s1|] eqn:A; [|discriminate]. eapply IH; [|exact R]. eapply pinv_step; eassumption.
+Qed.
+End PerBlock.
+
+Definition GeoInv (s : state) : Prop := PInv in_piece s.
+Theorem geo_step : forall s e s', GeoInv s -> accept s e = Some s' -> GeoInv s'.
+Proof. exact (pinv_step in_piece in_piece_geo in_piece_mk). Qed.
+
+(* in every reachable state every block starts at its number times the block size *)
+Theorem no_off_run : forall st0 c0 tr s x, run (init st0 c0) tr = Some s -> In x (blocks s) -> b_off x = b_no x * bs.
+Proof.
+  intros st0 c0 tr s x R Hx.
+  assert (G : PInv no_off s) by (eapply (pinv_run no_off no_off_geo no_off_mk); [|exact R]; intros y []).
+  exact (G x Hx).
 Qed.
 
 Theorem geo_run : forall tr s s', GeoInv s -> run s tr = Some s' -> GeoInv s'.
